@@ -18,6 +18,7 @@ import (
 	"go/ast"
 	"go/token"
 	"go/types"
+	"regexp"
 	"sort"
 	"strings"
 )
@@ -247,6 +248,9 @@ func runFaultIsolation(fnNames ...string) func(p *Prog, r *Report) {
 
 // ---- symbol field table -----------------------------------------------------------------
 
+// strconv.Itoa(x) and fmt.Sprintf("%d", x) render an int identically
+var itoaRe = regexp.MustCompile(`strconv\.Itoa\(([A-Za-z_][A-Za-z0-9_]*)\)`)
+
 type symRow struct {
 	typ    string            // literal type (decoder.X)
 	when   string            // discriminator: text that the literal's ExprName/AttrName/Type value must contain ("" = any)
@@ -408,7 +412,7 @@ func runSymbolFields(p *Prog, r *Report) {
 			for _, el := range cl.Elts {
 				if kv, ok := el.(*ast.KeyValueExpr); ok {
 					if id, ok := kv.Key.(*ast.Ident); ok {
-						fields[id.Name] = normSym(fn, kv.Value, k, v, recv, 3)
+						fields[id.Name] = itoaRe.ReplaceAllString(normSym(fn, kv.Value, k, v, recv, 3), `fmt.Sprintf("%d", $1)`)
 					}
 				}
 			}
